@@ -146,7 +146,7 @@ def check_c08(pid, tier, seed, res, work):
         # reference: F alone
         base = '%s/b%d' % (work, i)
         qrun.write_project(base, [F])
-        ctx_kind = ['copies', 'fragments', 'malformed', 'unreadable_file', 'unreadable_dir', 'dangling_symlink', 'decoys'][i % 7]
+        ctx_kind = ['copies', 'fragments', 'malformed', 'unreadable_file', 'unreadable_dir', 'dangling_symlink', 'decoys', 'callers'][i % 8]
         ctx = []
         if ctx_kind == 'copies':
             ctx = [('src/Copy.java', F[1]), ('other/Target%d.java' % i, F[1])]
@@ -155,6 +155,16 @@ def check_c08(pid, tier, seed, res, work):
             ctx = [('src/Other.java', t2.encode() + F[1][:len(F[1]) // 2])]
         elif ctx_kind == 'malformed':
             ctx = [('src/Bad.java', javagen.mutate(text, rng, 8).encode('utf-8', 'replace')), ('src/Empty.java', b''), ('src/Bin.java', bytes(rng.randrange(256) for _ in range(200)))]
+        elif ctx_kind == 'callers':
+            # many siblings that call what F declares (same names, same argument counts) and declare
+            # what F calls: whatever is derived for F from calls must come from F's own calls only
+            _t, truth, _s = javagen.gen_unit(seed + 1300, i, size=0.6)
+            sigs = sorted(set((t['name'], len(t['ptypes'])) for t in truth if t['kind'] == 'method'))
+            calls = sorted(set((t['name'].split('.')[-1], len(t['args'])) for t in truth if t['kind'] == 'call'))
+            for j in range(14):
+                body = ' '.join('%s(%s);' % (nm, ', '.join(str(k) for k in range(n))) for nm, n in sigs)
+                decls = ' '.join('void %s(%s) { }' % (nm, ', '.join('int a%d' % k for k in range(n))) for nm, n in calls[:6])
+                ctx.append(('sib/S%d.java' % j, ('class S%d { void s%d() { %s } %s }' % (j, j, body, decls)).encode()))
         elif ctx_kind == 'decoys':
             ctx = [('src/x.JAVA', F[1]), ('src/y.jav', F[1]), ('src/java', F[1]), ('src/dir.java/inner.txt', b'x'), ('src/dir.java/In.java', b'class In { int z = 1 + 2; }')]
         else:
@@ -242,7 +252,7 @@ def check(pid, tier, seed, t0, st, replay):
     for k in ('ocaml', 'harness'):
         if st.get(k, 1) != 0:
             res.tie_broken.append('build step %s failed' % k)
-    work = scratch('mg-' + pid)
+    work = scratch('mg-' + pid, deterministic='%s-%d' % (tier, seed))
     os.chmod(work, 0o755)
     try:
         if st.get('harness', 1) == 0 and st.get('ocaml', 1) == 0:
